@@ -108,6 +108,9 @@ func scnC14(rc *RunCtx) {
 		return
 	}
 	p := newPipeline(rc, 2, h, sshdTL, auditTL)
+	// in half of the runs the encoder edits the UserActions it receives (a consumer such as
+	// a redaction layer): shared state between emitted events and the stored login shows
+	p.PoisonActions = rc.Index%2 == 1
 	pol := pipelinePolicy(rc)
 	if err := p.Start(); err != nil {
 		rc.Abort("start: %v", err)
@@ -388,7 +391,8 @@ func scnC15Faults(rc *RunCtx) {
 	switch fault {
 	case "malformed-line":
 		pos = t.Choose(len(lines)+1, "pos")
-		badLine = []string{"type=SYSCALL this is not an audit record", "garbage", "type=USER_START msg=audit(xx): broken", "audit(1.1:1): no type"}[t.Choose(4, "bad")]
+		badLine = []string{"type=SYSCALL this is not an audit record", "garbage", "type=USER_START msg=audit(xx): broken", "audit(1.1:1): no type",
+			" ", "\t", "\r", "   \t ", "\x00", "type="}[t.Choose(10, "bad")]
 		lines = append(lines[:pos], append([]string{badLine}, lines[pos:]...)...)
 		wantEvents = 0
 		for i, end := range evEnd {
